@@ -29,6 +29,12 @@ from ref import grid as rg
 from ref import interp as ri
 from ref.grid import RefGrid
 
+# imported here (not lazily) so that the freshly forked shard processes inherit the loaded modules (~1 s per process)
+import deepali.data  # noqa: F401,E402
+import deepali.core.enum  # noqa: F401,E402
+import SimpleITK  # noqa: F401,E402
+import deepali.modules  # noqa: F401,E402
+
 PROPERTY = "C05"
 RULE = (
     "complete product source grid x target menu x (source, target) align_corners x interpolation x padding x API/batch "
